@@ -111,21 +111,30 @@ def check_exactly_once(chk, font, cfg, fmt, srcs, ctx, replay, want_order=None):
         exp, adv, A = oracle_svg.expected_layers(src.svg_text, oc)
         real = real_layer_shapes(font, fmt, reached[0])
         if fmt == "glyf" and len(real) == 1 and len(exp) > 1:
-            # ufo2ft decomposed the components into contours: judge the union (every source outline covered, nothing
-            # else visible); "exactly once" is then a statement about contours, checked by count
-            whole = real[0]
-            bad = 0
-            for li, E in enumerate(exp):
-                inside_pts = [p for p in OG.sample_points(E.shape.bounds, 10) if E.shape.inside(p) and E.shape.dist_to_edge(p) > 4]
-                if inside_pts and sum(1 for p in inside_pts if not whole.inside(p)) > 0.1 * len(inside_pts):
-                    # overlapping outlines with opposite winding cancel in a non-zero fill: report as missing geometry
-                    chk.violation(f"{ctx} [glyf] glyph {gi}: source outline {li} is not (fully) present in the decomposed glyph", replay)
-                    bad += 1
-            if whole.bounds is not None:
-                stray = [p for p in OG.sample_points(whole.bounds, 14) if whole.inside(p) and whole.dist_to_edge(p) > 4
-                         and not any(E.shape.inside(p) or E.shape.dist_to_edge(p) <= 4 for E in exp)]
-                if len(stray) > 2:
-                    chk.violation(f"{ctx} [glyf] glyph {gi}: visible geometry that no source outline accounts for", replay)
+            # ufo2ft decomposed the components into contours.  The property is about OUTLINES (each placed exactly once
+            # at its source position, nothing else), not about the filled union - overlapping contours of opposite
+            # direction cancel under non-zero winding, which is outside the statement.  Match contour by contour.
+            def boxes(shape):
+                out = []
+                for c in shape.contours:
+                    xs, ys = [p[0] for p in c], [p[1] for p in c]
+                    out.append((min(xs), min(ys), max(xs), max(ys)))
+                return out
+
+            want = [bx for E in exp for bx in boxes(E.shape)]
+            got = boxes(real[0])
+            unmatched = list(got)
+            missing = []
+            for bx in want:
+                hit = [g for g in unmatched if all(abs(g[i] - bx[i]) <= 4.0 for i in range(4))]
+                if hit:
+                    unmatched.remove(hit[0])
+                else:
+                    missing.append(bx)
+            if missing:
+                chk.violation(f"{ctx} [glyf] glyph {gi}: source contours with bounds {missing[:2]} are not present in the decomposed glyph", replay)
+            if unmatched:
+                chk.violation(f"{ctx} [glyf] glyph {gi}: contours {unmatched[:2]} that no source outline accounts for", replay)
             continue
         if len(real) != len(exp):
             chk.violation(f"{ctx} [{fmt}] glyph {gi}: {len(exp)} source outlines but {len(real)} layers/components", replay)
